@@ -385,6 +385,7 @@ func raceRun(c *engine.Ctx, r *engine.Report) {
 				}
 				if msg != "" {
 					r.Violate("race-run:"+strings.Fields(msg)[0], fmt.Sprintf("free-running scenario {%s}: %s", sc, msg), replayData{Scenario: sc})
+					return // one is enough; every further stranded connection would cost the full grace period
 				}
 			case <-time.After(20 * time.Second):
 				r.Violate("race-run:stuck", fmt.Sprintf("free-running scenario {%s} did not finish within 20 s (a Close or IngressConn call never returned)", sc), replayData{Scenario: sc})
